@@ -4,7 +4,7 @@
      C01_fragment_preservation -- semantic preservation of the backend model (Back/IR.v `lower` + the AST
      twin Pres/EmitAst.v of the text emitter Back/Emit.v) with respect to the reference interpreter
      Sem/SyltSem.v (source side) and the Lua 5.3 interpreter model Lua/LuaCore.v (target side), for the
-     computable fragment Pres/Frag.v `frag` (STAGE 4j: int/bool/string expressions, print, definitions, assignments
+     computable fragment Pres/Frag.v `frag` (STAGE 4k: int/bool/string expressions, print, definitions, assignments
      = += -= *=, if/elif/else expressions and statements, loops with break and continue, blocks, inside
      top-level functions; the outer definitions (global values and FUNCTIONS with parameters, `start` among them, in any
      order the resolver gives them),
@@ -1014,6 +1014,62 @@ Proof.
   cbn [r_final] in Hfin. destruct (o_final _); try contradiction. reflexivity.
 Qed.
 
+(* ---- a seventeenth program (stage 4k): early returns of function values ----
+     inc :: fn a: int -> int do a + 1 end
+     pick :: fn n: int -> fn int -> int do
+       k :: n * 10
+       if n == 0 do ret inc end
+       if n == 1 do ret fn y: int -> int do y + k end end
+       fn z: int -> int do z * k end
+     end
+     start :: fn do  print(pick(0)(5))  print(pick(1)(5))  print(pick(3)(5))  end          -- 6 15 150   *)
+Definition guard c fx := SStatementExpression (EIf [IfBranch (Some c) [SRet (Some fx) sp0] sp0] sp0) sp0.
+Definition ex_prog17 : resolved :=
+  mkResolved
+    [mkVar 0 "print" sp0 true Const; mkVar 1 "inc" sp0 true Const; mkVar 2 "pick" sp0 true Const;
+     mkVar 3 "start" sp0 true Const; mkVar 4 "== STACK ==" sp0 false Const;
+     mkVar 5 "a" sp0 false Const; mkVar 6 "n" sp0 false Const; mkVar 7 "k" sp0 false Const; mkVar 8 "y" sp0 false Const; mkVar 9 "z" sp0 false Const]
+    [SExternalDefinition "print" 0 Const (TImplied sp0) sp0;
+     SDefinition "inc" 1 Const (TImplied sp0)
+       (EFunction "lambda" [("a"%string, 5%N, sp0, tint)] tint
+          [SStatementExpression (EBinOp Add (ERead 5 sp0) (EInt 1 sp0) sp0) sp0] false sp0) sp0;
+     SDefinition "pick" 2 Const (TImplied sp0)
+       (EFunction "lambda" [("n"%string, 6%N, sp0, tint)] tfn1
+          [SDefinition "k" 7 Const tint (EBinOp Mul (ERead 6 sp0) (EInt 10 sp0) sp0) sp0;
+           guard (EBinOp Equals (ERead 6 sp0) (EInt 0 sp0) sp0) (ERead 1 sp0);
+           guard (EBinOp Equals (ERead 6 sp0) (EInt 1 sp0) sp0)
+                 (EFunction "lambda" [("y"%string, 8%N, sp0, tint)] tint
+                    [SStatementExpression (EBinOp Add (ERead 8 sp0) (ERead 7 sp0) sp0) sp0] false sp0);
+           SStatementExpression
+             (EFunction "lambda" [("z"%string, 9%N, sp0, tint)] tint
+                [SStatementExpression (EBinOp Mul (ERead 9 sp0) (ERead 7 sp0) sp0) sp0] false sp0) sp0] false sp0) sp0;
+     SDefinition "start" 3 Const (TImplied sp0)
+       (EFunction "lambda" [] (TImplied sp0)
+          [SStatementExpression (call 0 [Resolved.ECall (call 2 [EInt 0 sp0]) [EInt 5 sp0] sp0]) sp0;
+           SStatementExpression (call 0 [Resolved.ECall (call 2 [EInt 1 sp0]) [EInt 5 sp0] sp0]) sp0;
+           SStatementExpression (call 0 [Resolved.ECall (call 2 [EInt 3 sp0]) [EInt 5 sp0] sp0]) sp0]
+          false sp0) sp0].
+
+Example C01_example17_hypotheses :
+  frag 30 ex_prog17 = true /\
+  (exists code, lower 30 ex_prog17 = Ok code) /\
+  SyltSem.run 60 ex_prog17 = mkRun ["6"; "15"; "150"]%string ODone.
+Proof. split; [vm_compute; reflexivity | split; [eexists; vm_compute; reflexivity | vm_compute; reflexivity]]. Qed.
+
+Theorem C01_early_ret_function_value_by_theorem code :
+  lower 30 ex_prog17 = Ok code ->
+  exists m, forall m', (m <= m')%nat ->
+    let out := LuaCore.run_block Lua53 m' (chunk_ast code) in
+    o_trace out = ["6"; "15"; "150"]%string /\ o_final out = FDone.
+Proof.
+  intros Hl.
+  assert (Hf : frag 30 ex_prog17 = true) by (vm_compute; reflexivity).
+  assert (Hr : SyltSem.run 60 ex_prog17 = mkRun ["6"; "15"; "150"]%string ODone) by (vm_compute; reflexivity).
+  destruct (C01_fragment_preservation 30 ex_prog17 code 60 _ Hf Hl Hr I) as (m & Hm).
+  exists m. intros m' Hle. specialize (Hm m' Hle). cbv zeta in *. destruct Hm as [Ht Hfin]. split; [exact Ht|].
+  cbn [r_final] in Hfin. destruct (o_final _); try contradiction. reflexivity.
+Qed.
+
 Print Assumptions C01_fragment_preservation.
 Print Assumptions C01_fragment_preservation_text.
 Print Assumptions C01_activations_own_locals_by_theorem.
@@ -1025,6 +1081,7 @@ Print Assumptions C01_returned_closures_by_theorem.
 Print Assumptions C01_function_constants_by_theorem.
 Print Assumptions C01_computed_callees_by_theorem.
 Print Assumptions C01_ret_function_value_by_theorem.
+Print Assumptions C01_early_ret_function_value_by_theorem.
 
 (* ---- source tie: the hand-written model behind these theorems mirrors the files below; the digests of their
    functions regenerated from /repo on this run equal the reviewed ones (coq/Doc/DocSrcDigest.v).  Any edit of
